@@ -4,6 +4,7 @@
 exc_t ghost_exc;
 exc_t ghost_exc_caught;
 int ghost_log_enabled;
+int ghost_errno;
 tp_t g_last_now;               /* last value returned by steady_clock::now() (monotone clock) */
 #ifndef VEC_MAX
 #define VEC_MAX (1UL << 20)    /* symbolic vector lengths are <= VEC_MAX; loops are closed by invariants */
